@@ -1086,6 +1086,10 @@ class LinearOperator(object):
 
         # and MM^T = A^{-1}
         current_inv_root = self.root_inv_decomposition(method=root_inv_decomp_method).root.mT
+        # M^T is L^{-1} only when both roots come from the same factorization: L^{-1} = L^T A^{-1} = L^T M M^T
+        current_inv_root = to_linear_operator(
+            to_dense(current_root.mT.matmul(to_dense(current_inv_root.mT.matmul(to_dense(current_inv_root)))))
+        )
 
         # compute p = M B and take its SVD
         pvector = current_inv_root.matmul(low_rank_mat)
@@ -1262,7 +1266,8 @@ class LinearOperator(object):
         E = self.root_decomposition(**root_decomp_kwargs).root  # E = L, LL^T = A
         m, n = E.shape[-2:]
         R = self.root_inv_decomposition().root.to_dense()  # RR^T = A^{-1} (this is fast if L is triangular)
-        lower_left = B_ @ R  # F = BR
+        # F = B L^{-T} = B A^{-1} L = B R R^T L (R is L^{-T} only when both roots come from the same factorization)
+        lower_left = B_ @ (R @ (R.mT @ E.to_dense()))
         schur = D - lower_left.matmul(lower_left.mT)  # GG^T = new_mat - FF^T
         schur_root = to_linear_operator(schur).root_decomposition().root  # G = (new_mat - FF^T)^{1/2}
 
